@@ -204,8 +204,9 @@ def judge(case):
         want = [(sub + "/" if sub else "") + name + ("/" if isd else "")]
         if cd:
             want = ["cd"] + want
-        # (inside a sub-directory the wildcard pass walks the path: not modelled, assume it matches)
-        fam = family((sub + "/" if sub else "") + name, ctx, prefix, None if sub else [n for n, _ in pop])
+        # (inside a sub-directory the wildcard pass walks the path: not modelled, assume it matches; a directory is completed
+        # with a trailing slash, which the wildcard pass drops from whatever it matches - the entry itself included)
+        fam = family((sub + "/" if sub else "") + name, ctx, prefix, None if (sub or isd) else [n for n, _ in pop])
         if rec is None:
             # nothing ran: continuation prompt, background, syntax error ...
             sym = "program-did-not-run"
